@@ -38,6 +38,7 @@ struct st
 	int pat; /* pattern id of the contents (for the key) */
 	int L0;
 	int dead;
+	int ser; /* the node has been serialized at least once (it now owns a cached print buffer) */
 };
 enum
 {
@@ -46,7 +47,8 @@ enum
 	K_SET_LEN_FAIL,
 	K_SET_Z,
 	K_SET_Z_FAIL,
-	K_REFUSED
+	K_REFUSED,
+	K_SERIALIZE /* observation with a side effect: the node keeps the print buffer it used */
 };
 static void opname(int op, sb_t *o)
 {
@@ -59,6 +61,7 @@ static void opname(int op, sb_t *o)
 	case K_SET_Z: sb_printf(o, "set_string(\"abc\\0...\"#%d)", a); break;
 	case K_SET_Z_FAIL: sb_printf(o, "set_string(#%d) with its allocation failing", a); break;
 	case K_REFUSED: sb_printf(o, "set_string_len(refused length #%d)", a); break;
+	case K_SERIALIZE: sb_puts(o, "to_json_string"); break;
 	}
 }
 static void *fresh(void)
@@ -242,6 +245,10 @@ static void apply(void *vs, int op, int check)
 		}
 		break;
 	}
+	case K_SERIALIZE:
+		(void)json_object_to_json_string_ext(s->o, JSON_C_TO_STRING_PLAIN);
+		s->ser = 1;
+		break;
 	}
 	if (check && !s->dead)
 		compare(s, what);
@@ -271,12 +278,14 @@ static int menu(void *vs, int *ops, int cap)
 	}
 	for (int a = 0; a < 6; a++)
 		ops[n++] = (K_REFUSED << 8) | a;
+	if (!s->ser)
+		ops[n++] = K_SERIALIZE << 8;
 	return n;
 }
 static uint64_t key(void *vs)
 {
 	struct st *s = vs;
-	int k[6] = {s->dead, s->o ? 1 : 0, s->L0, s->len, s->pat, 0};
+	int k[7] = {s->dead, s->o ? 1 : 0, s->L0, s->len, s->pat, 0, s->ser};
 	if (s->o)
 		k[5] = ((struct json_object_string *)s->o)->len < 0;
 	return mc_hash(k, sizeof k, 29);
